@@ -145,7 +145,7 @@ func EInner(r *rand.Rand) Num {
 func GNum(r *rand.Rand) Num {
 	switch r.Intn(12) {
 	case 0:
-		return N([]string{"0.1", "0.2", "0.3", "2.675", "1.005", "0.125", "0.0005", "0.0025", "0.005", "0.015", "1e-3", "3.333", "123456.789", "123456.7895", "0", "1", "-0.1", "1e2", "2.5e-1", "-1E1", "1e+2", "0.045", "0.995", "9.995", "99.995", "010", "0755", "-012", "007.5", "1234567890.12", "98765432101234.5", "1e15", "4503599627370497", "-2147483648.5", "65536.005"}[r.Intn(35)])
+		return N([]string{"0.1", "0.2", "0.3", "2.675", "1.005", "0.125", "0.0005", "0.0025", "0.005", "0.015", "1e-3", "3.333", "123456.789", "123456.7895", "0", "1", "-0.1", "1e2", "2.5e-1", "-1E1", "1e+2", "0.045", "0.995", "9.995", "99.995", "010", "0755", "-012", "007.5", "1234567890.12", "98765432101234.5", "1e15", "4503599627370497", "-2147483648.5", "65536.005", "-1e-20"}[r.Intn(36)])
 	case 1:
 		return N(fmt.Sprintf("%d", r.Intn(2000)-300))
 	case 2:
@@ -179,6 +179,11 @@ var scripts = [][]rune{
 	[]rune("אבגדהוז"),
 	[]rune("कखगघचछज"),
 }
+
+// oddRunes look like blanks or like nothing but are ordinary data for the parser: no-break space,
+// zero-width space, soft hyphen, combining acute accent, ideographic space. They are only used
+// inside names (the ends of notes are trimmed with Unicode rules by design).
+var oddRunes = []rune("\u00a0\u200b\u00ad\u0301\u3000")
 
 // NameOpts selects the alphabet of generated names.
 type NameOpts struct {
@@ -242,6 +247,8 @@ func Name(r *rand.Rand, o NameOpts) string {
 				rs = append(rs, '/')
 				rs = append(rs, letterOrDigit(r, o))
 			}
+		case k == 3 && o.Unicode:
+			rs = append(rs, oddRunes[r.Intn(len(oddRunes))])
 		case k == 2 && o.Punct != "":
 			p := []rune(o.Punct)
 			rs = append(rs, p[r.Intn(len(p))])
